@@ -77,3 +77,23 @@ void lintgood_codec_map(unsigned char *y, const unsigned char *src)
 	mixw(yw); mixw(q);
 	br_enc32be(y, yw[3]); br_enc32be(y + 4, yw[2]); br_enc32be(y + 8, yw[1]); br_enc32be(y + 12, yw[0]);
 }
+
+/* word-split-conserves-bits: bit 62 of the top product word is dropped (th should be hi >> 62) */
+void lintbad_word_split(uint64_t *d, const uint64_t *a, const uint64_t *b)
+{
+	unsigned __int128 z = (unsigned __int128)a[0] * b[0];
+	uint64_t lo = (uint64_t)z, hi = (uint64_t)(z >> 64), th;
+	th = hi >> 63;
+	hi = ((hi << 1) | (lo >> 63)) & 0x7FFFFFFFFFFFFFFFull;
+	lo &= 0x7FFFFFFFFFFFFFFFull;
+	d[0] = lo + 19 * hi; d[1] = th;
+}
+void lintgood_word_split(uint64_t *d, const uint64_t *a, const uint64_t *b)
+{
+	unsigned __int128 z = (unsigned __int128)a[0] * b[0];
+	uint64_t lo = (uint64_t)z, hi = (uint64_t)(z >> 64), th;
+	th = hi >> 62;
+	hi = ((hi << 1) | (lo >> 63)) & 0x7FFFFFFFFFFFFFFFull;
+	lo &= 0x7FFFFFFFFFFFFFFFull;
+	d[0] = lo + 19 * hi; d[1] = th;
+}
